@@ -70,8 +70,8 @@ Definition EncodeRunLength (fuel : nat) (runLength : Z) (endOfLine : bool) (ri :
   match enc_runlen_loop fuel runLength ri [] with
   | None => None
   | Some (rl, ri', acc) =>
-    if endOfLine then Some (rev (if negb (rl =? 0) then (1, 1) :: acc else acc), ri')
-    else Some (rev ((wrapU 32 rl, Jof ri' + 1) :: acc), ri')
+    if endOfLine then Some (frev (if negb (rl =? 0) then (1, 1) :: acc else acc), ri')
+    else Some (frev ((wrapU 32 rl, Jof ri' + 1) :: acc), ri')
   end.
 
 (* func (r *RunModeScanner) DecodeRunLength(gr, remainingInLine) : (runLength, RunIndex', rest) *)
